@@ -352,54 +352,53 @@ def unrefAll (st : St) : List Id → Res St
     let st ← unrefLogged st c
     unrefAll st cs
 
-/-! ### `_handle_key` -/
+/-! ### `_handle_key`
 
-/-- `done: tickit_window_unref(win); return ret;` -/
-def keyDone (st : St) (win : Id) (ret : Bool) : Out (St × Bool) := do
-  let st ← unrefLogged st win
-  pure (st, ret)
+  The body of `_handle_key` is written over the function `rec` that the recursive calls go to, so that every phase
+  is a definition of its own; `handleKey cfg (f+1)` is the body over `handleKey cfg f` (fuel = nesting depth). -/
 
-mutual
-/-- `_handle_key(win, info)`. -/
-def handleKey (cfg : Cfg) : Nat → St → Id → Ev → Out (St × Bool)
-  | 0, _, _, _ => .fuel
-  | f + 1, st, win, ev => do
-    let vis ← entryVisible cfg st.tree win
-    if !vis then pure (st, false) else
-    let st ← refWin st win
-    let w ← get st.tree win
-    -- if(win->first_child && win->first_child->steal_input) if(_handle_key(win->first_child, info)) goto done;
-    let (st, done) ← match w.children.head? with
-      | none => (pure (st, false) : Out (St × Bool))
-      | some fc => do
-        let fw ← get st.tree fc
-        if fw.stealInput then handleKey cfg f st fc ev else pure (st, false)
-    if done then keyDone st win true else
-    -- if(win->focused_child) if(_handle_key(win->focused_child, info)) goto done;
-    let w ← get st.tree win
-    let (st, done) ← match w.focusedChild with
-      | none => (pure (st, false) : Out (St × Bool))
-      | some fc => handleKey cfg f st fc ev
-    if done then keyDone st win true else
-    -- if(run_events_whilefalse(win, TICKIT_WINDOW_ON_KEY, info)) goto done;
-    let own ← ownVisible cfg st.tree win
-    let (st, done) ← if own then (runHandlers st .key win ev : Out (St × Bool)) else pure (st, false)
-    if done then keyDone st win true else
-    let w ← get st.tree win
-    if cfg.snapshot then do
-      -- children = snapshot with a reference each; walk it; drop the references
-      let cs := w.children
-      let st ← refAll st cs
-      let (st, done) ← keySnap cfg f st win cs ev
-      let st ← unrefAll st cs
-      keyDone st win done
-    else do
-      -- for(child = win->first_child; child; child = next) …
-      let (st, done) ← keyLoop cfg f st win w.children.head? ev
-      keyDone st win done
+abbrev KeyRec := St → Id → Ev → Out (St × Bool)
 
-/-- The "other children" loop of `_handle_key` before the repair; `child` is the loop variable. -/
-def keyLoop (cfg : Cfg) : Nat → St → Id → Option Id → Ev → Out (St × Bool)
+/-- `a`, and if it did not claim the event, `k` (the `if(…) goto done;` chain). -/
+def firstClaim (a : Out (St × Bool)) (k : St → Out (St × Bool)) : Out (St × Bool) := do
+  let (st, done) ← a
+  if done then pure (st, true) else k st
+
+/-- `if(win->first_child && win->first_child->steal_input) if(_handle_key(win->first_child, info)) goto done;` -/
+def keySteal (rec : KeyRec) (st : St) (win : Id) (ev : Ev) : Out (St × Bool) := do
+  let w ← get st.tree win
+  match w.children.head? with
+  | none => pure (st, false)
+  | some fc => do
+    let fw ← get st.tree fc
+    if fw.stealInput then rec st fc ev else pure (st, false)
+
+/-- `if(win->focused_child) if(_handle_key(win->focused_child, info)) goto done;` -/
+def keyFocus (rec : KeyRec) (st : St) (win : Id) (ev : Ev) : Out (St × Bool) := do
+  let w ← get st.tree win
+  match w.focusedChild with
+  | none => pure (st, false)
+  | some fc => rec st fc ev
+
+/-- `if(_is_shown(win) && run_events_whilefalse(win, TICKIT_WINDOW_ON_KEY, info)) goto done;` -/
+def keyOwn (cfg : Cfg) (st : St) (win : Id) (ev : Ev) : Out (St × Bool) := do
+  let own ← ownVisible cfg st.tree win
+  if own then runHandlers st .key win ev else pure (st, false)
+
+/-- The "other children" loop over the counted snapshot (after the repair). -/
+def keySnap (rec : KeyRec) : St → Id → List Id → Ev → Out (St × Bool)
+  | st, _, [], _ => pure (st, false)
+  | st, win, child :: rest, ev => do
+    let cw ← get st.tree child
+    if cw.parent ≠ some win then keySnap rec st win rest ev else    -- closed by a handler in the meantime
+    let w ← get st.tree win
+    if w.focusedChild = some child then keySnap rec st win rest ev else
+    let (st, done) ← rec st child ev
+    if done then pure (st, true) else keySnap rec st win rest ev
+
+/-- The same loop before the repair: `for(child = win->first_child; child; child = next) { next = child->next; … }`;
+    `child` is the loop variable, the fuel bounds the walk. -/
+def keyLoop (rec : KeyRec) : Nat → St → Id → Option Id → Ev → Out (St × Bool)
   | _, st, _, none, _ => pure (st, false)
   | 0, _, _, some _, _ => .fuel
   | f + 1, st, win, some child, ev => do
@@ -408,24 +407,101 @@ def keyLoop (cfg : Cfg) : Nat → St → Id → Option Id → Ev → Out (St × 
     else pure ()
     let next ← nextSibling st.tree child          -- next = child->next
     let w ← get st.tree win
-    if w.focusedChild = some child then keyLoop cfg f st win next ev else
-    let (st, done) ← handleKey cfg f st child ev
-    if done then pure (st, true) else keyLoop cfg f st win next ev
+    if w.focusedChild = some child then keyLoop rec f st win next ev else
+    let (st, done) ← rec st child ev
+    if done then pure (st, true) else keyLoop rec f st win next ev
 
-/-- The same loop over the counted snapshot (after the repair). -/
-def keySnap (cfg : Cfg) : Nat → St → Id → List Id → Ev → Out (St × Bool)
-  | _, st, _, [], _ => pure (st, false)
-  | 0, _, _, _ :: _, _ => .fuel
-  | f + 1, st, win, child :: rest, ev => do
-    let cw ← get st.tree child
-    if cw.parent ≠ some win then keySnap cfg f st win rest ev else    -- closed by a handler in the meantime
-    let w ← get st.tree win
-    if w.focusedChild = some child then keySnap cfg f st win rest ev else
-    let (st, done) ← handleKey cfg f st child ev
-    if done then pure (st, true) else keySnap cfg f st win rest ev
-end
+/-- "Last-ditch attempt to spread it around other children". -/
+def keyChildren (cfg : Cfg) (rec : KeyRec) (fuel : Nat) (st : St) (win : Id) (ev : Ev) : Out (St × Bool) := do
+  let w ← get st.tree win
+  if cfg.snapshot then do
+    -- children = snapshot with a reference each; walk it; drop the references
+    let cs := w.children
+    let st ← refAll st cs
+    let (st, done) ← keySnap rec st win cs ev
+    let st ← unrefAll st cs
+    pure (st, done)
+  else keyLoop rec fuel st win w.children.head? ev
+
+/-- `done: tickit_window_unref(win); return ret;` -/
+def keyDone (st : St) (win : Id) (ret : Bool) : Out (St × Bool) := do
+  let st ← unrefLogged st win
+  pure (st, ret)
+
+/-- `_handle_key(win, info)` over the function the recursive calls go to. -/
+def handleKeyBody (cfg : Cfg) (rec : KeyRec) (fuel : Nat) (st : St) (win : Id) (ev : Ev) : Out (St × Bool) := do
+  let vis ← entryVisible cfg st.tree win
+  if !vis then pure (st, false) else
+  let st ← refWin st win
+  let (st, done) ←
+    firstClaim (keySteal rec st win ev) fun st =>
+    firstClaim (keyFocus rec st win ev) fun st =>
+    firstClaim (keyOwn cfg st win ev) fun st =>
+    keyChildren cfg rec fuel st win ev
+  keyDone st win done
+
+/-- `_handle_key`. -/
+def handleKey (cfg : Cfg) : Nat → KeyRec
+  | 0 => fun _ _ _ => .fuel
+  | f + 1 => handleKeyBody cfg (handleKey cfg f) f
 
 /-! ### `_handle_mouse` -/
+
+abbrev MouseRec := St → Id → Ev → Out (St × Option Id)
+
+/-- Is the cell `(line, col)` (in the parent's coordinates) outside the child's rectangle? -/
+def outsideChild (cw : Win) (line col : Int) : Bool :=
+  line - cw.rect.top < 0 || line - cw.rect.top ≥ cw.rect.lines || col - cw.rect.left < 0 || col - cw.rect.left ≥ cw.rect.cols
+
+/-- The event as the child sees it. -/
+def Ev.toChild (ev : Ev) (cw : Win) : Ev := { ev with line := ev.line - cw.rect.top, col := ev.col - cw.rect.left }
+
+/-- The children loop of `_handle_mouse` over the counted snapshot (after the repair). -/
+def mouseSnap (rec : MouseRec) : St → Id → List Id → Ev → Out (St × Option Id)
+  | st, _, [], _ => pure (st, none)
+  | st, win, child :: rest, ev => do
+    let cw ← get st.tree child
+    if cw.parent ≠ some win then mouseSnap rec st win rest ev else    -- closed by a handler in the meantime
+    if !cw.stealInput && outsideChild cw ev.line ev.col then mouseSnap rec st win rest ev else
+    let (st, r) ← rec st child (ev.toChild cw)
+    match r with
+    | some h => pure (st, some h)
+    | none => mouseSnap rec st win rest ev
+
+/-- The same loop before the repair. -/
+def mouseLoop (rec : MouseRec) : Nat → St → Option Id → Ev → Out (St × Option Id)
+  | _, st, none, _ => pure (st, none)
+  | 0, _, some _, _ => .fuel
+  | f + 1, st, some child, ev => do
+    if !isAlive st.tree child then
+      (.ub s!"_handle_mouse: the saved next sibling {child} was freed by a handler (child->next read after free)" : Out Unit)
+    else pure ()
+    let next ← nextSibling st.tree child          -- next = child->next
+    let cw ← get st.tree child
+    if !cw.stealInput && outsideChild cw ev.line ev.col then mouseLoop rec f st next ev else
+    let (st, r) ← rec st child (ev.toChild cw)
+    match r with
+    | some h => pure (st, some h)
+    | none => mouseLoop rec f st next ev
+
+def mouseChildren (cfg : Cfg) (rec : MouseRec) (fuel : Nat) (st : St) (win : Id) (ev : Ev) : Out (St × Option Id) := do
+  let w ← get st.tree win
+  if cfg.snapshot then do
+    let cs := w.children
+    let st ← refAll st cs
+    let (st, r) ← mouseSnap rec st win cs ev
+    let st ← unrefAll st cs
+    pure (st, r)
+  else mouseLoop rec fuel st w.children.head? ev
+
+/-- The window's own handlers; a claim is returned as a counted reference after the repair. -/
+def mouseOwn (cfg : Cfg) (st : St) (win : Id) (ev : Ev) : Out (St × Option Id) := do
+  let own ← ownVisible cfg st.tree win
+  let (st, done) ← if own then (runHandlers st .mouse win ev : Out (St × Bool)) else pure (st, false)
+  if done then do
+    let st ← if cfg.counted then refWin st win else pure st      -- ret = tickit_window_ref(win)
+    pure (st, some win)
+  else pure (st, none)
 
 /-- `done:` of `_handle_mouse`. -/
 def mouseDone (cfg : Cfg) (st : St) (win : Id) (ret : Option Id) : Out (St × Option Id) := do
@@ -435,74 +511,26 @@ def mouseDone (cfg : Cfg) (st : St) (win : Id) (ret : Option Id) : Out (St × Op
   let st ← unrefLogged st win
   pure (st, ret)
 
-/-- Is the cell `(line, col)` (in the parent's coordinates) outside the child's rectangle? -/
-def outsideChild (cw : Win) (line col : Int) : Bool :=
-  line - cw.rect.top < 0 || line - cw.rect.top ≥ cw.rect.lines || col - cw.rect.left < 0 || col - cw.rect.left ≥ cw.rect.cols
+/-- `_handle_mouse(win, info)` over the function the recursive calls go to: the window that handled the event,
+    or NULL (a counted reference after the repair). -/
+def handleMouseBody (cfg : Cfg) (rec : MouseRec) (fuel : Nat) (st : St) (win : Id) (ev : Ev) : Out (St × Option Id) := do
+  let vis ← entryVisible cfg st.tree win
+  if !vis then pure (st, none) else
+  let st ← refWin st win
+  let (st, r) ← mouseChildren cfg rec fuel st win ev
+  let (st, r) ← match r with
+    | some h => (pure (st, some h) : Out (St × Option Id))
+    | none => mouseOwn cfg st win ev
+  mouseDone cfg st win r
 
-mutual
-/-- `_handle_mouse(win, info)`: the window that handled the event, or NULL (a counted reference after the repair). -/
-def handleMouse (cfg : Cfg) : Nat → St → Id → Ev → Out (St × Option Id)
-  | 0, _, _, _ => .fuel
-  | f + 1, st, win, ev => do
-    let vis ← entryVisible cfg st.tree win
-    if !vis then pure (st, none) else
-    let st ← refWin st win
-    let w ← get st.tree win
-    let (st, r) ←
-      if cfg.snapshot then do
-        let cs := w.children
-        let st ← refAll st cs
-        let (st, r) ← mouseSnap cfg f st win cs ev
-        let st ← unrefAll st cs
-        (pure (st, r) : Out (St × Option Id))
-      else mouseLoop cfg f st w.children.head? ev
-    match r with
-    | some h => mouseDone cfg st win (some h)
-    | none => do
-      let own ← ownVisible cfg st.tree win
-      let (st, done) ← if own then (runHandlers st .mouse win ev : Out (St × Bool)) else pure (st, false)
-      if done then do
-        let st ← if cfg.counted then refWin st win else pure st      -- ret = tickit_window_ref(win)
-        mouseDone cfg st win (some win)
-      else mouseDone cfg st win none
+/-- `_handle_mouse`. -/
+def handleMouse (cfg : Cfg) : Nat → MouseRec
+  | 0 => fun _ _ _ => .fuel
+  | f + 1 => handleMouseBody cfg (handleMouse cfg f) f
 
-/-- The children loop of `_handle_mouse` before the repair. -/
-def mouseLoop (cfg : Cfg) : Nat → St → Option Id → Ev → Out (St × Option Id)
-  | _, st, none, _ => pure (st, none)
-  | 0, _, some _, _ => .fuel
-  | f + 1, st, some child, ev => do
-    if !isAlive st.tree child then
-      (.ub s!"_handle_mouse: the saved next sibling {child} was freed by a handler (child->next read after free)" : Out Unit)
-    else pure ()
-    let next ← nextSibling st.tree child          -- next = child->next
-    let cw ← get st.tree child
-    if !cw.stealInput && outsideChild cw ev.line ev.col then
-      mouseLoop cfg f st next ev
-    else do
-      let (st, r) ← handleMouse cfg f st child { ev with line := ev.line - cw.rect.top, col := ev.col - cw.rect.left }
-      match r with
-      | some h => pure (st, some h)
-      | none => mouseLoop cfg f st next ev
-
-/-- The same loop over the counted snapshot (after the repair). -/
-def mouseSnap (cfg : Cfg) : Nat → St → Id → List Id → Ev → Out (St × Option Id)
-  | _, st, _, [], _ => pure (st, none)
-  | 0, _, _, _ :: _, _ => .fuel
-  | f + 1, st, win, child :: rest, ev => do
-    let cw ← get st.tree child
-    if cw.parent ≠ some win then mouseSnap cfg f st win rest ev else    -- closed by a handler in the meantime
-    if !cw.stealInput && outsideChild cw ev.line ev.col then
-      mouseSnap cfg f st win rest ev
-    else do
-      let (st, r) ← handleMouse cfg f st child { ev with line := ev.line - cw.rect.top, col := ev.col - cw.rect.left }
-      match r with
-      | some h => pure (st, some h)
-      | none => mouseSnap cfg f st win rest ev
-end
-
-/-- Fuel that suffices for any dispatch on a store of this size (every level of recursion and every loop
-    iteration consumes one; a window is entered at most a few times per level). -/
-def routeFuel (t : Tree) : Nat := 4 * (t.wins.size + 2) * (t.wins.size + 2)
+/-- Fuel that suffices for any dispatch on a store of this size (one per level of nesting; the unrepaired sibling
+    walk also draws on it). -/
+def routeFuel (t : Tree) : Nat := 2 * t.wins.size + 8
 
 /-! ### `on_term_key`, `on_term_mouse`, and the terminal-level emission -/
 
@@ -613,17 +641,25 @@ def visibleChain (t : Tree) : Nat → Id → Bool
         | none => true
         | some p => visibleChain t f p
 
-/-- The windows a key event is offered to below and including `win` (whose ancestors are taken to be visible), in
-    order, *as the code visits them* (a stealing first child is visited by the steal rule and again by the loop
-    over the children): stealing front-most child, focus chain innermost first, the window itself, the other
-    children.  `none`: out of fuel. -/
+/-- Run `g` over a list and concatenate (`none` as soon as one of them is `none`). -/
+def visitList {α : Type} (g : Id → Option (List α)) : List Id → Option (List α)
+  | [] => some []
+  | c :: cs => do
+    let a ← g c
+    let b ← visitList g cs
+    pure (a ++ b)
+
+/-- The windows a key event is offered to below and including `win`, in order, *as the code visits them* (a
+    stealing first child is visited by the steal rule and again by the loop over the children): nothing if `win` or
+    one of its ancestors is hidden; otherwise the stealing front-most child, the focus chain innermost first, the
+    window itself, the other children.  `none`: out of fuel. -/
 def keyVisits (t : Tree) : Nat → Id → Option (List Id)
   | 0, _ => none
   | f + 1, win =>
     match t.wins[win]? with
     | none => some []
     | some w =>
-      if w.freed || !w.isVisible then some [] else do
+      if !visibleChain t (treeFuel t) win then some [] else do
       let steal ← match w.children.head? with
         | some fc => (match t.wins[fc]? with
           | some fw => if fw.stealInput then keyVisits t f fc else some []
@@ -632,8 +668,8 @@ def keyVisits (t : Tree) : Nat → Id → Option (List Id)
       let foc ← match w.focusedChild with
         | some fc => keyVisits t f fc
         | none => some []
-      let rest ← (w.children.filter (fun c => w.focusedChild ≠ some c)).mapM (keyVisits t f)
-      pure (steal ++ foc ++ [win] ++ rest.flatten)
+      let rest ← visitList (fun c => if w.focusedChild = some c then some [] else keyVisits t f c) w.children
+      pure (steal ++ foc ++ [win] ++ rest)
 
 /-- The reference offer order for a key event: first occurrences of `keyVisits`. -/
 def keyOrder (t : Tree) (fuel : Nat) (win : Id) : Option (List Id) := (keyVisits t fuel win).map List.eraseDups
@@ -641,21 +677,21 @@ def keyOrder (t : Tree) (fuel : Nat) (win : Id) : Option (List Id) := (keyVisits
 /-- Is the cell inside the child's rectangle (cell in the parent's coordinates)? -/
 def inChild (cw : Win) (line col : Int) : Bool := !outsideChild cw line col
 
-/-- The windows a mouse event at `(line, col)` (in `win`'s coordinates) is offered to below and including `win`,
-    with the position each of them is given: front-most children under the pointer (or stealing) first, depth first,
-    then the window itself. -/
-def mouseVisits (t : Tree) : Nat → Id → Int → Int → Option (List (Id × Int × Int))
-  | 0, _, _, _ => none
-  | f + 1, win, line, col =>
+/-- The windows a mouse event `ev` (position in `win`'s coordinates) is offered to below and including `win`, with
+    the event as each of them sees it: nothing if `win` or an ancestor is hidden; otherwise the children under the
+    pointer (or stealing), front-most first, depth first, then the window itself. -/
+def mouseVisits (t : Tree) : Nat → Id → Ev → Option (List (Id × Ev))
+  | 0, _, _ => none
+  | f + 1, win, ev =>
     match t.wins[win]? with
     | none => some []
     | some w =>
-      if w.freed || !w.isVisible then some [] else do
-      let below ← w.children.mapM fun c =>
+      if !visibleChain t (treeFuel t) win then some [] else do
+      let below ← visitList (fun c =>
         match t.wins[c]? with
-        | some cw => if cw.stealInput || inChild cw line col then mouseVisits t f c (line - cw.rect.top) (col - cw.rect.left) else some []
-        | none => some []
-      pure (below.flatten ++ [(win, line, col)])
+        | some cw => if cw.stealInput || inChild cw ev.line ev.col then mouseVisits t f c (ev.toChild cw) else some []
+        | none => some []) w.children
+      pure (below ++ [(win, ev)])
 
 /-- The windows of the subtree of `win` (through the children lists). -/
 def subtree (t : Tree) : Nat → Id → List Id
